@@ -416,30 +416,33 @@ def rand_elem(rng, for_history=False):
 
 def cases(tier, seed):
     nagg, nhist = NCASES[tier]
-    for i in range(nagg):
-        rng = gen.rng_for(seed, "C09", "agg", i)
-        er = rand_elem(rng)
-        n = rng.choice([0, 1, 2, 3, 4, 5, 6, 7, 8])
-        yield {"k": "agg", "el": er, "vals": rand_values(rng, er, n)}
-    for i in range(nhist):
-        rng = gen.rng_for(seed, "C09", "hist", i)
-        er = rand_elem(rng, for_history=True)
-        nops = rng.randint(2, 10)
-        kinds = [rng.choice(["f", "f", "f", "c", "r"]) for _ in range(nops)]
-        if "r" not in kinds:
-            kinds[rng.randrange(nops)] = "r"
-        if rng.random() < 0.7:
-            kinds.append("c")
-        nf = kinds.count("f")
-        vals = rand_values(rng, er, nf, histories=True)
-        ops, vi = [], 0
-        for kd in kinds:
-            if kd == "f":
-                ops.append(["f", vals[vi]])
-                vi += 1
-            else:
-                ops.append([kd])
-        yield {"k": "history", "el": er, "ops": ops}
+    for c in corner_cases():
+        yield c
+    for i in range(max(nagg, nhist)):
+        if i < nagg:
+            rng = gen.rng_for(seed, "C09", "agg", i)
+            er = rand_elem(rng)
+            n = rng.choice([0, 1, 2, 3, 4, 5, 6, 7, 8])
+            yield {"k": "agg", "el": er, "vals": rand_values(rng, er, n)}
+        if i < nhist:
+            rng = gen.rng_for(seed, "C09", "hist", i)
+            er = rand_elem(rng, for_history=True)
+            nops = rng.randint(2, 10)
+            kinds = [rng.choice(["f", "f", "f", "c", "r"]) for _ in range(nops)]
+            if "r" not in kinds:
+                kinds[rng.randrange(nops)] = "r"
+            if rng.random() < 0.7:
+                kinds.append("c")
+            nf = kinds.count("f")
+            vals = rand_values(rng, er, nf, histories=True)
+            ops, vi = [], 0
+            for kd in kinds:
+                if kd == "f":
+                    ops.append(["f", vals[vi]])
+                    vi += 1
+                else:
+                    ops.append([kd])
+            yield {"k": "history", "el": er, "ops": ops}
     # documented reset target: start values reset to zero (finite table x seeded values)
     nz = 120 if tier == "quick" else 3000
     for i in range(nz):
@@ -449,7 +452,10 @@ def cases(tier, seed):
         yield {"k": "reset_zero", "el": er,
                "before": rand_values(rng, er, rng.randint(0, 3)),
                "after": rand_values(rng, er, rng.randint(0, 4))}
-    # enumerated corner table
+
+
+def corner_cases():
+    """Enumerated corner table (independent of the seed)."""
     for dim in (1, 2, 3):
         yield {"k": "agg", "el": ["vecnr", dim],
                "vals": [{"d": [i + j for j in range(dim)], "c": None} for i in range(3)]}
@@ -971,13 +977,27 @@ def run_reset_zero(r, obs):
                   "zero, not to the start value" % (lab, er[-1], r["after"][:i + 1], res[2]))
 
 
+_reported = {}     # mech -> violations already recorded by this process
+MAX_PER_MECH = 4   # the worker keeps at most 200 violations: do not let one mechanism fill it
+
+
 def run_case(r, obs):
     k = r["k"]
-    if k == "agg":
-        run_agg(r, obs)
-    elif k == "history":
-        run_history(r, obs)
-    elif k == "reset_zero":
-        run_reset_zero(r, obs)
-    else:
-        raise AssertionError(k)
+    try:
+        if k == "agg":
+            run_agg(r, obs)
+        elif k == "history":
+            run_history(r, obs)
+        elif k == "reset_zero":
+            run_reset_zero(r, obs)
+        else:
+            raise AssertionError(k)
+    finally:
+        kept = []
+        for v in obs.violations:
+            _reported[v["mech"]] = _reported.get(v["mech"], 0) + 1
+            if _reported[v["mech"]] <= MAX_PER_MECH:
+                kept.append(v)
+            else:
+                obs.count("violations_beyond_the_first_%d_per_mechanism_and_worker" % MAX_PER_MECH)
+        obs.violations[:] = kept
